@@ -48,3 +48,10 @@ func init() {
 	props["C07"] = []Stream{{"wire-varint", genWireVarint}, {"wire-valid", genWireValid}, {"wire-reencode", genWireReencode}, {"wire-unknown-dbi", genWireUnknownDBI}}
 	props["C08"] = []Stream{{"wire-varint", genWireVarint}, {"wire-malformed", genWireMalformed}, {"wire-unknown-dbi", genWireUnknownDBI}}
 }
+
+func init() {
+	props["C01"] = []Stream{{"merge", genMerge}, {"loop", genLoop}}
+	props["C03"] = []Stream{{"loop", genLoop}, {"c11-oracle", genTxnFlavor("c11")}}
+	props["C09"] = []Stream{{"loop", genLoop}, {"loop-restart", genLoopRestart}}
+	props["C05"] = []Stream{{"loop-restart", genLoopRestart}}
+}
